@@ -968,6 +968,125 @@ async def burst_round(ctx: Ctx, rng, ck: Checker, sim: Sim, c, path, hops: int, 
         ctx.case(("burst", hops, kind, fresh, k), True)
 
 
+async def interleaved_fresh_round(ctx: Ctx, rng, ck: Checker, sim: Sim, circuits, paths, hops: int):
+    """the FIRST datagrams of several circuits arrive while each exit socket is still creating its transports (all of them have
+    datagrams waiting at the same time); a host on the mock internet answers each one.  Every datagram must leave through the
+    socket of ITS circuit, and every answer must come back over the circuit that asked."""
+    from ipv8.messaging.interfaces.endpoint import EndpointListener
+    tag = ck.tag
+    ov = sim.nodes[0].overlay
+
+    class Echo(EndpointListener):
+        def __init__(self):
+            ep = sim.mep.AutoMockEndpoint()
+            ep.open()
+            EndpointListener.__init__(self, ep, main_thread=False)
+            ep.add_listener(self)
+
+        def on_packet(self, packet):
+            self.endpoint.send(packet[0], b"d" + packet[1][1:-1] + b"!e")      # answer to whoever sent it
+    echo = Echo()
+    eaddr = tuple(echo.endpoint.wan_address)
+    sent = {}
+    first = len(sim.passages)
+    sim.op_first_pid = first
+    n_exit, n_raw = len(sim.exit_log), len(sim.raw_log)
+    for rnd in range(2):
+        for ci, c in enumerate(circuits):
+            pl = b"d" + bytes([ci, rnd]) + bytes(rng.getrandbits(8) for _ in range(12)) + b"e"
+            sent.setdefault(ci, []).append(pl)
+            ov.send_data(c.hop.address, c.circuit_id, eaddr, ZERO, pl)          # no settling: all sockets are still closed
+    await sim.settle()
+    await sim.settle()
+    replay = {"scenario": tag, "op": "interleaved-fresh", "hops": hops, "circuits": len(circuits),
+              "payloads": {str(k): [p.hex() for p in v] for k, v in sent.items()}}
+    ck.check_passages(first, "interleaved first data", replay)
+    outs, raws = sim.exit_log[n_exit:], sim.raw_log[n_raw:]
+    for ci, (c, path) in enumerate(zip(circuits, paths)):
+        exit_node, exit_cid = path[-1]
+        want_out = sorted((exit_node, exit_cid, pl, eaddr) for pl in sent[ci])
+        got_out = sorted(o for o in outs if o[2] in sent[ci])
+        answers = sorted(b"d" + pl[1:-1] + b"!e" for pl in sent[ci])
+        got_back = sorted(r[3] for r in raws if r[1] == c.circuit_id)
+        if got_out != want_out:
+            ctx.oracle_fail("exit_socket:wrong-socket", f"{tag}: first datagrams of {len(circuits)} circuits sent back-to-back: those of circuit "
+                            f"{c.circuit_id} left as {[(o[0], o[1]) for o in got_out]}, expected {len(sent[ci])}x through exit socket "
+                            f"{exit_cid} of node {exit_node}", replay)
+        if got_back != answers:
+            ctx.oracle_fail("on_data:originator-input", f"{tag}: answers to the first datagrams of circuit {c.circuit_id} came back as "
+                            f"{len(got_back)} datagram(s) on that circuit ({len([r for r in raws if r[3] in answers])} anywhere), expected "
+                            f"{len(answers)} on that circuit", replay)
+    ctx.count(f"interleaved_fresh:circuits:{len(circuits)}:same_exit:{int(len({p[-1][0] for p in paths}) == 1)}")
+    ctx.case(("interleaved-fresh", hops, len(circuits)), True)
+
+
+# ---------- m11 class: the exit's traffic rules at the documented minimum sizes, both directions
+def spec_could_be_bt(d: bytes) -> bool:
+    """written from the protocol documents quoted in DataChecker's docstrings, not from its code"""
+    utp = len(d) >= 20 and (d[0] >> 4) <= 4 and (d[0] & 15) == 1 and d[1] <= 3
+    tracker = (len(d) >= 8 and int.from_bytes(d[0:4], "big") <= 3) or (len(d) >= 12 and int.from_bytes(d[8:12], "big") <= 3)
+    dht = len(d) > 1 and d[:1] == b"d" and d[-1:] == b"e"
+    return utp or tracker or dht
+
+
+def boundary_payloads(rng):
+    rb = lambda n: bytes(rng.getrandbits(8) for _ in range(n))  # noqa: E731
+    hi = lambda: bytes([0x80 | rng.getrandbits(7)]) + rb(3)     # noqa: E731  a first word > 3 that is no uTP header
+    act = lambda: struct.pack("!I", rng.randrange(4))           # noqa: E731
+    return {
+        "tracker-8": act() + rb(4), "tracker-7": act() + rb(3), "tracker-9": act() + rb(5),
+        "tracker-off8-12": hi() + rb(4) + act(), "tracker-off8-11": hi() + rb(4) + act()[:3],
+        "utp-20": bytes([(rng.randrange(5) << 4) | 1, rng.randrange(4)]) + b"\xff" * 6 + hi() + rb(6),
+        "utp-19": bytes([(rng.randrange(5) << 4) | 1, rng.randrange(4)]) + b"\xff" * 6 + hi() + rb(5),
+        "dht-2": b"de", "dht-1": b"d", "dht-3": b"d" + rb(1)[:1].replace(b"e", b"f") + b"e",
+        "none-40": hi() + b"\xff" * 4 + hi() + rb(28),
+    }
+
+
+async def policy_boundary_round(ctx: Ctx, rng, ck: Checker, sim: Sim, c, path, hops: int):
+    """real exit policy (BT exit): datagrams at and just below the minimum size of each recognised protocol, sent out through
+    the exit and returned through it (`is_allowed` is applied in both directions)"""
+    tag = ck.tag
+    ov = sim.nodes[0].overlay
+    exit_node, exit_cid = path[-1]
+    xo = sim.nodes[exit_node].overlay
+    xs = xo.exit_sockets.get(exit_cid)
+    from ipv8.messaging.anonymization.tunnel import PEER_FLAG_EXIT_BT, PEER_FLAG_EXIT_IPV8
+    bt, v8 = PEER_FLAG_EXIT_BT in xo.settings.peer_flags, PEER_FLAG_EXIT_IPV8 in xo.settings.peer_flags
+    for name, payload in boundary_payloads(rng).items():
+        allowed = spec_could_be_bt(payload) and bt
+        for direction in ("fwd", "bwd"):
+            replay = {"scenario": tag, "op": "policy-boundary", "class": name, "direction": direction, "payload": payload.hex(),
+                      "hops": hops}
+            first = len(sim.passages)
+            sim.op_first_pid = first
+            n_exit, n_raw = len(sim.exit_log), len(sim.raw_log)
+            dest, src = ("8.8.4.4", 1000 + rng.randrange(60000)), ("9.9.9.9", 1000 + rng.randrange(60000))
+            if direction == "fwd":
+                ov.send_data(c.hop.address, c.circuit_id, dest, ZERO, payload)
+            elif getattr(xs, "transport_ipv4", None) is not None:
+                xs.transport_ipv4.proto.datagram_received(payload, src)
+            else:
+                continue
+            await sim.settle()
+            ck.check_passages(first, f"policy boundary {name} {direction}", replay)
+            outs, raws = sim.exit_log[n_exit:], sim.raw_log[n_raw:]
+            got = outs == [(exit_node, exit_cid, payload, dest)] if direction == "fwd" else raws == [(0, c.circuit_id, src, payload)]
+            if allowed and not got:
+                ctx.oracle_fail("exit_policy:allowed-traffic-lost", f"{tag}: {name} ({len(payload)} bytes, BitTorrent traffic by the protocol's "
+                                f"minimum size) {'sent into the circuit did not leave the BT exit' if direction == 'fwd' else 'returned to the BT exit did not arrive at the originator'}",
+                                replay)
+            if (outs or raws) and not got:
+                ctx.oracle_fail("exit_data:output", f"{tag}: {name} {direction}: wrong output", replay)
+            ctx.count(f"policy_boundary:{name}:{direction}:{'passed' if (outs or raws) else 'filtered'}")
+            if ck.drv is not None:
+                m = ck.ask(f"allowed {int(bt)} {int(v8)} {xo.get_prefix().hex()} {payload.hex() or '-'}")
+                real = str(int(bool(xs.is_allowed(payload))))
+                if m != real:
+                    ctx.disagree(f"{tag}: exit policy for {name} ({payload.hex()}): model {m} != implementation {real}", {**replay, "model": m, "impl": real})
+            ctx.case(("policy-boundary", name, direction), True)
+
+
 # ------------------------------------------------------------------------------------------------------------------
 async def build_plain(ctx: Ctx, rng, hops: int, n_circuits: int, open_policy: bool):
     from ipv8.messaging.anonymization.tunnel import PEER_FLAG_EXIT_BT, PEER_FLAG_RELAY, PEER_FLAG_SPEED_TEST
@@ -1073,7 +1192,9 @@ async def run_plain(ctx: Ctx, rng, hops: int, use_model: bool, seed_tag: str, al
                                  f"(FwdChain: {rf}, BwdChain: {rb})", {"scenario": tag, "hops": hops, "tables": sim.tables()[0]})
         sizes = [rng.choice(SIZES) for _ in range(ctx.scale(5, 12))] + [0, 1500] + ([4096] if ctx.thorough() else [])
         # ---- bursts into an exit socket that has not opened its transports yet ---------------------------------
-        if len(circuits) > 1:
+        if len(circuits) > 1 and rng.random() < 0.6:
+            await interleaved_fresh_round(ctx, rng, ck, sim, circuits, paths, hops)
+        elif len(circuits) > 1:
             await burst_round(ctx, rng, ck, sim, circuits[1], paths[1], hops, fresh=True)
         # ---- genuine traffic -------------------------------------------------------------------------------
         for ci, (c, path) in enumerate(zip(circuits, paths)):
@@ -1161,6 +1282,8 @@ async def run_plain(ctx: Ctx, rng, hops: int, use_model: bool, seed_tag: str, al
             ctx.case((tag.split('/')[0], hops, "test", rs, ps_), True)
             ctx.count("op:test_request")
         await burst_round(ctx, rng, ck, sim, circuits[0], paths[0], hops, fresh=False)
+        if not open_policy:
+            await policy_boundary_round(ctx, rng, ck, sim, circuits[0], paths[0], hops)
         # ---- every payload class, both directions --------------------------------------------------------------
         for c, path in zip(circuits, paths):
             exit_node, exit_cid = path[-1]
@@ -1554,7 +1677,7 @@ async def inject_round(ctx, rng, ck: Checker, sim: Sim, circuits, paths, hops, s
 
 
 # ------------------------------------------------------------------------------------------------------------------
-async def rp_reflect_round(ctx, rng, ck: Checker, sim: Sim, senders):
+async def rp_reflect_round(ctx, rng, ck: Checker, sim: Sim, senders, state="ready"):
     """the rendezvous point holds hop keys but not the end-to-end keys: it peels its own layer off a cell and sends the
     content straight back to where it came from; the sender must not accept its own data as coming from the other end"""
     tag = ck.tag
@@ -1601,6 +1724,33 @@ async def rp_reflect_round(ctx, rng, ck: Checker, sim: Sim, senders):
                     ctx.disagree(f"{tag}: cell reflected by the rendezvous point: model {mw} {mfin} != implementation {real} {fin}",
                                  {**replay, "model": m, "impl": real + [fin]})
             ctx.case(("e2e", "inject", "rp-reflect", direction), True)
+            # the rendezvous point makes a DATA message of its own and wraps it in the only layer it can make (its hop key):
+            # without the end-to-end layer the end must refuse it
+            from ipv8.messaging.anonymization.payload import DataPayload
+            forged = bytes([1]) + sim.nodes[0].overlay.serializer.pack_serializable(
+                DataPayload(cid, ZERO, ("6.6.6.6", 6), b"FORGED-BY-THE-RENDEZVOUS-POINT"))[4:]
+            body2 = r.hop.keys.encrypt_str(forged, 1)
+            pkt = prefix + b"\x00" + struct.pack("!I??", cid, False, False) + body2
+            replay = {"scenario": tag, "op": "inject", "kind": "rp-forge", "direction": direction, "dst": src, "src": dst,
+                      "cid": cid, "datagram": pkt.hex(), "state": state}
+            n_raw, n_exit = len(sim.raw_log), len(sim.exit_log)
+            f2 = len(sim.passages)
+            q = sim.inject(src, dst, pkt)
+            await sim.settle()
+            if sim.raw_log[n_raw:] or sim.exit_log[n_exit:] or any(p.delivered for p in sim.passages[f2:]):
+                ctx.oracle_fail("inject:rp-forge:delivered", f"{tag}: a cell made by the rendezvous point with its hop key only (no end-to-end "
+                                f"layer) was accepted as end-to-end data by the {direction} sender's end ({state} circuit)", replay)
+            ctx.count(f"inject:rp-forge:{state}")
+            if ck.drv is not None:
+                pl = sim.peel(body2, forged)
+                m = ck.ask(f"inject {src} {dst} {cid} 0 0 [{','.join(pl)}] {forged.hex()}")
+                mw, mfin, reason = canon_model(m)
+                real = real_trace(sim, q, forged)
+                fin = real_final(q, q.wires[-1][1] if q.wires else src)
+                if not traces_agree(mw, mfin, real, fin):
+                    ctx.disagree(f"{tag}: cell forged by the rendezvous point ({state}): model {mw} {mfin} != implementation {real} {fin}",
+                                 {**replay, "model": m, "impl": real + [fin]})
+            ctx.case(("e2e", "inject", "rp-forge", direction, state), True)
 
 
 # ------------------------------------------------------------------------------------------------------------------
@@ -1747,6 +1897,29 @@ async def run_e2e(ctx: Ctx, rng, use_model: bool, seed_tag: str, all_bytes_sizes
         await inject_round(ctx, rng, ck, sim, [d], None, nlinks, senders=senders, kindtag="e2e")
         await rp_reflect_round(ctx, rng, ck, sim, senders)
         ck.compare_tables("at the end")
+        if delay:
+            # ---- both ends close their e2e circuit; for remove_tunnel_delay seconds the circuits stay registered and usable
+            #      (post-mortem data): they must stay END-TO-END circuits for that time
+            o0.remove_circuit(d.circuit_id, "test")
+            o2.remove_circuit(sd.circuit_id, "test")
+            await sim.settle()
+            ctx.count(f"e2e:closing-window:still-registered:{int(d.circuit_id in o0.circuits)}{int(sd.circuit_id in o2.circuits)}")
+            ck.compare_tables("while the e2e circuits are closing")
+            for direction, recv_node, recv_cid in (("fwd", 2, sd.circuit_id), ("bwd", 0, d.circuit_id)):
+                payload = rand_payload(rng, 60)
+                replay = {"scenario": tag, "op": f"e2e_{direction}", "state": "closing", "payload": payload.hex()}
+                first = len(sim.passages)
+                sim.op_first_pid = first
+                senders[direction](payload)
+                await sim.settle()
+                ck.check_passages(first, f"e2e data {direction} on closing circuits", replay)
+                root = sim.passages[first]
+                cs = getattr(root, "layer_counts", [])
+                if root.wires and (len(cs) != len(root.wires) or min(cs) < 2):
+                    ctx.oracle_fail("e2e:layers", f"{tag}: data sent over a closing e2e circuit ({direction}): layers per link {cs}; the "
+                                    "end-to-end layer must still cover it", replay)
+                ctx.case(("e2e", direction, "data", "closing"), True)
+            await rp_reflect_round(ctx, rng, ck, sim, senders, state="closing")
     finally:
         if ck.drv is not None:
             ck.drv.close()
